@@ -30,6 +30,7 @@ UNIT_MAP = {
     'variables': ['closure_capture', 'decode_walk'],
     'scan:error_site_address': ['error_trace'],
     'card_index': ['error_trace'],
+    'module_paths': ['module_edit'],
     'card_home': ['error_trace'],
     'imports': ['name_resolution'],
     'modules': ['name_resolution'],
